@@ -107,6 +107,19 @@ func (s *server) influxQuery(q string) (string, error) {
 	return string(b), nil
 }
 
+func (s *server) influxQueryDB(db, q string) (string, error) {
+	resp, err := s.hc.PostForm(s.base+"/query", url.Values{"db": {db}, "q": {q}})
+	if err != nil {
+		return "", err
+	}
+	defer resp.Body.Close()
+	b, _ := io.ReadAll(resp.Body)
+	if resp.StatusCode >= 300 || strings.Contains(string(b), `"error"`) {
+		return string(b), fmt.Errorf("query %q: status %d: %s", q, resp.StatusCode, b)
+	}
+	return string(b), nil
+}
+
 func (s *server) createDB(db string) error {
 	var err error
 	for i := 0; i < 50; i++ {
